@@ -535,6 +535,7 @@ class Pointwise:
         raise Untranslatable("exponent " + ast.unparse(e))
 
     inline_nat = {}
+    UFUNCS = {"np.divide": "/", "np.multiply": "*", "np.add": "+", "np.subtract": "-"}
 
     def cond(self, e):
         if isinstance(e, ast.Name) and e.id in self.masks:
@@ -580,6 +581,11 @@ class Pointwise:
                 return f"(min {self.expr(e.args[0], mask)} {self.expr(e.args[1], mask)})"
             if ch == "np.where" and len(e.args) == 3 and not e.keywords:
                 return f"(if {self.cond(e.args[0])} then {self.expr(e.args[1], mask)} else {self.expr(e.args[2], mask)})"
+            if ch == "np.nan_to_num" and len(e.args) == 1:
+                self.notes.append("`np.nan_to_num` is the identity (no NaN over the rationals)")
+                return self.expr(e.args[0], mask)
+            if ch in self.UFUNCS and len(e.args) == 2 and not e.keywords:
+                return f"({self.expr(e.args[0], mask)} {self.UFUNCS[ch]} {self.expr(e.args[1], mask)})"
             if ch in ("np.full", "np.full_like") and len(e.args) == 2:
                 return self.expr(e.args[1], mask)
             if ch in ("np.zeros", "np.zeros_like"):
@@ -625,6 +631,18 @@ class Pointwise:
                     c = self.cond(m)
                     self.let(n, f"if {c} then {self.expr(st.value, self._mask_key(m))} else {cur}")
                     return None
+        if isinstance(st, ast.Expr) and isinstance(st.value, ast.Call) and attr_chain(st.value.func) in self.UFUNCS \
+                and len(st.value.args) == 2:
+            # np.divide(a, b, out=x, where=M): x := if M then a / b else x
+            kws = {k.arg: k.value for k in st.value.keywords}
+            if set(kws) <= {"out", "where"} and "out" in kws and self.name_of(kws["out"]) is not None:
+                n = self.name_of(kws["out"])
+                cur = self.expr(kws["out"])
+                val = f"({self.expr(st.value.args[0])} {self.UFUNCS[attr_chain(st.value.func)]} {self.expr(st.value.args[1])})"
+                if "where" in kws:
+                    val = f"if {self.cond(kws['where'])} then {val} else {cur}"
+                self.let(n, val)
+                return None
         if isinstance(st, ast.AugAssign):
             n = self.name_of(st.target)
             op = {ast.Add: "+", ast.Sub: "-", ast.Mult: "*", ast.Div: "/"}.get(type(st.op))
